@@ -21,12 +21,14 @@
       (and in the randomness drawn, for `pass_encrypt`);
     * after the call it only writes to standard error, and returns `Ok(())` exactly when the library function succeeded.
 
-  What is NOT covered: what the library call does to the world (that is the subject of the library-level translation,
-  KestrelProps/StreamSrc.lean, over scripted readers and writers), hence no statement "translated command = runDecrypt";
-  `gen_key` and `ask_user_stderr` are not translated at all.
+  What is NOT covered HERE: what the library call does to the world (that is the subject of the library-level translation,
+  KestrelProps/StreamSrc.lean, over scripted readers and writers), hence no statement "translated command = runDecrypt" in this
+  file.  The two halves are composed in KestrelProps/CliFullSrc.lean (`cli_source_full_decrypt` …, `cli_source_full_program`):
+  the statements below, instantiated at the library `CliSrc.streamLib` built from the translated stream functions.
+  (`gen_key` and `ask_user_stderr` are in KestrelProps/CliGenKeySrc.lean.)
   Views (KestrelProofs/CliStreamSrc.lean): `readerOf` / `writerOf` — the reader / writer built for an input / output
   argument; `readerContent w r` — the bytes the reader stands for in world `w`; `SameButStderr a b` — equal process states
-  up to standard error and the count of random draws; `passPrefix`, `decryptPrefix`, `encryptPrefix` — the model's
+  up to standard error and the count of random draws (same files, same standard input and position in it); `passPrefix`, `decryptPrefix`, `encryptPrefix` — the model's
   commands up to the library call (`cli_model_*` below tie them to `runPassDecrypt` …).
   Hypothesis `1 ≤ sys.fuel`: one round of the unlock / confirmation `loop`, which is all the code needs without a terminal.
 -/
